@@ -693,6 +693,12 @@ func (sc *c07Scn) op(f []string) {
 				sc.r.Count("outside-subset.modes-agree")
 			} else {
 				sc.r.Count("outside-subset.modes-differ." + c07OpKind(f))
+				if sc.kind == "witness" {
+					// the witness of same_answers_every_operand_refuted, replayed on the real stores
+					sc.r.Checked("witness.malformed-operand")
+					sc.r.Failf("C07.same-answers.malformed-operand", strings.Join(f, " ")+"  in  "+c07Short(sc.line),
+						"timing answered %s, emulator answered %s (operand outside the supported subset)", ans, sh)
+				}
 				if os.Getenv("C07_DEBUG") != "" {
 					sc.r.Note("differ %s: timing %s emu %s", strings.Join(f, " "), ans, sh)
 				}
@@ -1163,8 +1169,11 @@ func runC07(r *Run, rng *Rng, replay string) {
 	for _, w := range c07Witnesses {
 		runC07Scenario(r, w, "valid")
 	}
+	// malformed operand (vcc_lo with RegCount 3): the two stores answer differently (known finding)
+	runC07Scenario(r, []string{"c07 tim fill=0 nsimd=1 wf=0:0:0:16:4", "set 0 1111111122222222 0 0 0",
+		fmt.Sprintf("rb 0 %d 3 0 12", insts.VCCLO)}, "witness")
 	c07Enum(r)
-	nEmu, nTim, nWild, length := 150, 250, 120, 150
+	nEmu, nTim, nWild, length := 300, 500, 200, 150
 	if r.Tier == "thorough" {
 		nEmu, nTim, nWild, length = 4000, 8000, 3000, 400
 	}
